@@ -155,6 +155,36 @@ def main(chk):
             except Exception:
                 row_same = False
         events[i]["stable"] = row_same
+    # real binary floats (code -> spec only): float schemas pinned near decimal ties, with a precision;
+    # whichever of them compare equal must judge the tie, its neighbours and each other's values alike
+    import d42
+    from . import deep
+    dummy = {"t": "float", "value": [], "min": [], "max": [], "precision": []}
+    w0 = {"k": "float", "q": 0, "sp": "fin"}
+    for v, p in deep.TIE_VALUES:
+        step = 10.0 ** -p
+        cands = sorted({v, round(v, p), round(v, p) + step, round(v, p) - step, v + step / 2, v - step / 2})
+        try:
+            fam = [d42.schema.float(c).precision(p) for c in cands]
+        except Exception:
+            continue
+        for i, x in enumerate(fam):
+            ev = {"id": len(events) + 1, "a": dummy, "arepr": safe_repr(x), "refl": _safe(lambda: bool(x == x)),
+                  "optional_ok": True, "stable": True,
+                  "rebuilt_eq": _safe(lambda: bool(x == d42.schema.float(cands[i]).precision(p))),
+                  "ne_ok": True, "sym_ok": True, "trans_ok": True, "value_ok": True, "equals": []}
+            for j, y in enumerate(fam):
+                e1, e2 = _safe(lambda: bool(x == y)), _safe(lambda: bool(y == x))
+                if e1 != e2:
+                    ev["sym_ok"] = False
+                if _safe(lambda: bool(x != y)) == e1:
+                    ev["ne_ok"] = False
+                if j != i and e1:
+                    ev["equals"].append({"b": dummy, "brepr": safe_repr(y),
+                                         "probes": [{"w": w0, "ok_a": ok_validate(x, c), "ok_b": ok_validate(y, c)}
+                                                    for c in cands]})
+            events.append(ev)
+            chk.count("real_float_schemas")
     slim = [{k: e[k] for k in ("id", "a", "optional_ok", "stable", "refl", "rebuilt_eq", "ne_ok", "sym_ok", "trans_ok", "value_ok",
                                "equals")} for e in events]
     for e in slim:
